@@ -114,6 +114,206 @@ fn shape_of(text: &str) -> String {
     out
 }
 
+
+// ---------------------------------------------------------------------------------------------
+// SEM: a semantic summary of every impl: header facts + the structure of the method body
+// (lets, assignments, the result expression as struct literal / constructor call / tuple / match).
+fn ns(t: &impl ToTokens) -> String {
+    t.to_token_stream().to_string().replace(' ', "")
+}
+
+fn sem_expr(e: &syn::Expr, out: &mut String) {
+    match e {
+        syn::Expr::Struct(s) => {
+            out.push_str("(struct ");
+            esc(&ns(&s.path), out);
+            for f in &s.fields {
+                out.push_str(" (f ");
+                esc(&ns(&f.member), out);
+                out.push(' ');
+                sem_expr(&f.expr, out);
+                out.push(')');
+            }
+            if let Some(r) = &s.rest {
+                out.push_str(" (rest ");
+                sem_expr(r, out);
+                out.push(')');
+            } else if s.dot2_token.is_some() {
+                out.push_str(" (rest-empty)");
+            }
+            out.push(')');
+        }
+        syn::Expr::Call(c) if matches!(&*c.func, syn::Expr::Path(_)) => {
+            out.push_str("(call ");
+            esc(&ns(&c.func), out);
+            for a in &c.args {
+                out.push(' ');
+                sem_expr(a, out);
+            }
+            out.push(')');
+        }
+        syn::Expr::Tuple(t) => {
+            out.push_str("(tuple");
+            for a in &t.elems {
+                out.push(' ');
+                sem_expr(a, out);
+            }
+            out.push(')');
+        }
+        syn::Expr::Paren(p) if p.attrs.is_empty() => {
+            out.push_str("(paren ");
+            sem_expr(&p.expr, out);
+            out.push(')');
+        }
+        syn::Expr::Try(t) => {
+            out.push_str("(try ");
+            sem_expr(&t.expr, out);
+            out.push(')');
+        }
+        syn::Expr::Match(m) => {
+            out.push_str("(match ");
+            esc(&ns(&m.expr), out);
+            for a in &m.arms {
+                out.push_str(" (arm ");
+                esc(&ns(&a.pat), out);
+                if let Some((_, g)) = &a.guard {
+                    out.push_str(" (guard ");
+                    esc(&ns(g), out);
+                    out.push(')');
+                }
+                out.push(' ');
+                sem_expr(&a.body, out);
+                out.push(')');
+            }
+            out.push(')');
+        }
+        syn::Expr::Assign(a) => {
+            out.push_str("(assign ");
+            esc(&ns(&a.left), out);
+            out.push(' ');
+            sem_expr(&a.right, out);
+            out.push(')');
+        }
+        syn::Expr::Block(b) if b.attrs.is_empty() && b.label.is_none() => sem_block(&b.block, out),
+        other => {
+            out.push_str("(raw ");
+            esc(&ns(other), out);
+            out.push(')');
+        }
+    }
+}
+
+fn sem_block(b: &syn::Block, out: &mut String) {
+    out.push_str("(block");
+    for st in &b.stmts {
+        out.push(' ');
+        match st {
+            syn::Stmt::Local(l) => {
+                out.push_str("(let ");
+                esc(&ns(&l.pat), out);
+                if let Some(init) = &l.init {
+                    out.push(' ');
+                    sem_expr(&init.expr, out);
+                    if init.diverge.is_some() {
+                        out.push_str(" (else)");
+                    }
+                }
+                out.push(')');
+            }
+            syn::Stmt::Expr(e, semi) => {
+                out.push_str(if semi.is_some() { "(stmt " } else { "(tail " });
+                sem_expr(e, out);
+                out.push(')');
+            }
+            syn::Stmt::Item(i) => {
+                out.push_str("(item ");
+                esc(&ns(i), out);
+                out.push(')');
+            }
+            syn::Stmt::Macro(m) => {
+                out.push_str("(macro ");
+                esc(&ns(m), out);
+                out.push(')');
+            }
+        }
+    }
+    out.push(')');
+}
+
+fn sem_attrs(attrs: &[syn::Attribute], out: &mut String) {
+    out.push_str(" (attrs");
+    for a in attrs {
+        out.push(' ');
+        esc(&format!("{}{}", if matches!(a.style, syn::AttrStyle::Inner(_)) { "!" } else { "" }, ns(&a.meta)), out);
+    }
+    out.push(')');
+}
+
+fn sem_of(text: &str) -> String {
+    let file: syn::File = match syn::parse_str(text) {
+        Ok(f) => f,
+        Err(e) => {
+            let mut s = String::from("(sem-parse-fail ");
+            esc(&e.to_string(), &mut s);
+            s.push(')');
+            return s;
+        }
+    };
+    let mut out = String::from("(sem");
+    for item in &file.items {
+        match item {
+            syn::Item::Impl(im) => {
+                out.push_str(" (impl ");
+                let tr = match &im.trait_ {
+                    Some((bang, p, _)) => format!("{}{}", if bang.is_some() { "!" } else { "" }, ns(p)),
+                    None => "-".into(),
+                };
+                esc(&tr, &mut out);
+                out.push(' ');
+                esc(&type_str(&im.self_ty), &mut out);
+                out.push_str(" (generics");
+                for g in &im.generics.params {
+                    out.push(' ');
+                    esc(&ns(g), &mut out);
+                }
+                out.push_str(") (where");
+                if let Some(w) = &im.generics.where_clause {
+                    for p in &w.predicates {
+                        out.push(' ');
+                        esc(&ns(p), &mut out);
+                    }
+                }
+                out.push(')');
+                sem_attrs(&im.attrs, &mut out);
+                for ii in &im.items {
+                    match ii {
+                        syn::ImplItem::Fn(m) => {
+                            let _ = write!(out, " (fn {}", m.sig.ident);
+                            sem_attrs(&m.attrs, &mut out);
+                            out.push_str(" (sig ");
+                            esc(&ns(&m.sig), &mut out);
+                            out.push_str(") ");
+                            // inner attributes of the body are parsed by syn into the fn's attrs with Inner style
+                            sem_block(&m.block, &mut out);
+                            out.push(')');
+                        }
+                        syn::ImplItem::Type(t) => {
+                            let _ = write!(out, " (type {} ", t.ident);
+                            esc(&type_str(&t.ty), &mut out);
+                            out.push(')');
+                        }
+                        _ => out.push_str(" (other-impl-item)"),
+                    }
+                }
+                out.push(')');
+            }
+            _ => out.push_str(" (non-impl-item)"),
+        }
+    }
+    out.push(')');
+    out
+}
+
 fn main() {
     let stdin = std::io::stdin();
     let stdout = std::io::stdout();
@@ -123,7 +323,13 @@ fn main() {
         if line.starts_with("CASE ") {
             writeln!(w, "{}", line).unwrap();
         } else if let Some(rest) = line.strip_prefix("STR ") {
-            writeln!(w, "SHAPE {}", shape_of(&unesc(rest))).unwrap();
+            let t = unesc(rest);
+            writeln!(w, "SHAPE {}", shape_of(&t)).unwrap();
+            writeln!(w, "SEM {}", sem_of(&t)).unwrap();
+        } else if let Some(rest) = line.strip_prefix("MSTR ") {
+            let t = unesc(rest);
+            writeln!(w, "MSHAPE {}", shape_of(&t)).unwrap();
+            writeln!(w, "MSEM {}", sem_of(&t)).unwrap();
         }
     }
     w.flush().unwrap();
